@@ -124,6 +124,21 @@ CHECKS = {
         "not by schedule-lockstep replay of the atomic steps. Sequentially consistent interleaving; counts < 2^64-64; a claim is freed at most once.",
    technique="Coq invariant proof of a small-step interleaving model + sequential specs + differential and multi-threaded implementation oracles",
    design="3/C14"),
+ "C20": dict(
+   text="Machine-checked proof (Coq 8.16.1) over an executable Gallina model of _mi_strlcpy/_mi_strlcat/_mi_strnicmp/_mi_getenv (environ variant), the "
+        "value decision of mi_option_init (boolean words, ISO strtol base 10, KiB/MiB/GiB/TiB suffixes, saturation, malformed <-> default kept, as an "
+        "iff against a declarative grammar), mi_option_set/get/set_default, _mi_vsnprintf with all directives, mi_out_buf(_flush), mi_buffered_out "
+        "and mi_heap_buf_print. Destination buffers are explicit with an out-of-bounds fault flag; theorems hold for all sources, all buffer sizes, "
+        "all formats and arguments. The complete MIMALLOC_<NAME> -> mi_option_get path is evaluated inside Coq for every option of the table "
+        "regenerated from /repo. Model and code are compared byte for byte on ~1.3e5 (quick) / ~8e5 (thorough) records under PROT_NONE guard pages, "
+        "and the implementation is judged against an independent oracle of the documented grammar.",
+   note="Proved per function; the composition of mi_option_init's name construction/legacy fallback and of mi_stats_get_json / mi_stats_print / "
+        "mi_options_print as wholes is computed for the concrete table resp. tested under guard pages (json: caller sizes 0..300 plus large ones). "
+        "vsnprintf's no-fault theorem assumes field widths do not wrap the address space (the 97 formats in the tree have width <= 24). Known "
+        "finding impl:long-value-truncated (values > 64 bytes): theorems long_value_truncated + long_value_refuted. libc strtol is modelled from "
+        "ISO C and compared with glibc on every generated value.",
+   technique="Coq proof over Gallina model with explicit bounded buffers + regenerated option table + guard-page differential + independent grammar oracle",
+   design="3/C20"),
 }
 NOT_YET = {}
 def main():
